@@ -504,6 +504,65 @@ func (si *stmtInliner) inlineCore(file *ast.File, call *ast.CallExpr, sig *types
 			}
 			aid, isID := argExprs[i].(*ast.Ident)
 			if !isID {
+				// a method value of a caller's local (`forEach(xs, result.Or)`): the function-typed parameter, never
+				// assigned in the body of a declared function (which cannot reach the caller's locals), is that method
+				// value — its calls become static method calls
+				sel, isSel := argExprs[i].(*ast.SelectorExpr)
+				if !isSel || fn == nil {
+					continue
+				}
+				if _, isDecl := fn.(*types.Func); !isDecl {
+					continue
+				}
+				rid, isRID := sel.X.(*ast.Ident)
+				if !isRID {
+					continue
+				}
+				rv, isVar := si.info.Uses[rid].(*types.Var)
+				if !isVar || rv.IsField() || rv.Parent() == si.pkg.Scope() {
+					continue
+				}
+				if sl := si.info.Selections[sel]; sl == nil || sl.Kind() != types.MethodVal {
+					continue
+				}
+				if _, isFn := v.Type().Underlying().(*types.Signature); !isFn {
+					continue
+				}
+				var pobj types.Object
+				ast.Inspect(decl.Type, func(n ast.Node) bool {
+					if id, ok := n.(*ast.Ident); ok && id.Name == v.Name() {
+						if o := si.info.Defs[id]; o != nil {
+							pobj = o
+						}
+					}
+					return true
+				})
+				if pobj == nil {
+					continue
+				}
+				assigned := false
+				ast.Inspect(decl.Body, func(n ast.Node) bool {
+					switch y := n.(type) {
+					case *ast.AssignStmt:
+						for _, l := range y.Lhs {
+							if lid, ok := l.(*ast.Ident); ok && (si.info.Uses[lid] == pobj || si.info.Defs[lid] == pobj) {
+								assigned = true
+							}
+						}
+					case *ast.UnaryExpr:
+						if y.Op == token.AND {
+							if lid, ok := y.X.(*ast.Ident); ok && si.info.Uses[lid] == pobj {
+								assigned = true
+							}
+						}
+					}
+					return true
+				})
+				if !assigned {
+					txt := rid.Name + "." + sel.Sel.Name
+					substName[v.Name()] = txt
+					substObj[pobj] = txt
+				}
 				continue
 			}
 			switch f := si.info.Uses[aid].(type) {
